@@ -41,6 +41,7 @@ type Trace struct {
 	Ties        int
 	Exact       int
 	MultiEv     int // blocks delivering >1 event
+	LamportInversions int // consecutive blocks whose Atropos Lamport times fall
 	EmptyBlk    int // blocks delivering no event (Atropos already delivered: same root elected for two frames)
 	JumpRoots   int // processed events whose frame is >= 2 above their self-parent's
 	CheatBlk    int // blocks with a non-empty expected cheater list
@@ -117,6 +118,7 @@ func Run(d *DAG, r *rand.Rand, o RunOpts) *Trace {
 		fpParts = append(fpParts, RootArrivalFP(order))
 		delivered := map[hash.Event]idx.Frame{}
 		lastBlockFrame := idx.Frame(0)
+		lastAtroposLamport := idx.Lamport(0)
 		forksSoFar := false
 		seenSeq := map[[2]uint64]hash.Event{}
 		for _, e := range order {
@@ -168,6 +170,10 @@ func Run(d *DAG, r *rand.Rand, o RunOpts) *Trace {
 						t.add(DFrameNumber, "impl_frame", b.Frame, "previous_block_frame", lastBlockFrame, "epoch", b.Epoch, "why", "blocks of an epoch must carry consecutive frames starting at 1")
 					}
 					lastBlockFrame = b.Frame
+					if lastAtroposLamport > b.Atropos.Lamport() {
+						t.LamportInversions++ // this block's Atropos has a smaller Lamport time than the previous block's
+					}
+					lastAtroposLamport = b.Atropos.Lamport()
 				}
 				if b.Dup {
 					t.add(DDeliveredTwice, "frame", b.Frame, "epoch", b.Epoch, "within", "one block")
